@@ -36,3 +36,7 @@ package encoding
 //@ lemma EA_pyrimidine [C07]: forallb(c, forallb(d, implies(isACGT(c) && isACGT(d) && upper(c) != upper(d), ((MakeEncodingArray()[c] | MakeEncodingArray()[d]) == 56) == ((upper(c) == 'C' && upper(d) == 'T') || (upper(c) == 'T' && upper(d) == 'C')))))
 //@ # C06/C16: completeness score = 12 / number of denoted bases, indexed by the encoded symbol
 //@ lemma score_encoded [C16,C06]: forallb(c, implies(accepted(c), MakeEncodedScoreArray()[MakeEncodingArray()[c]] == MakeScoreArray()[c]))
+//@ # the readers only ever produce images of accepted characters: the 17 soft codes plus 4 (hard gap)
+//@ lemma codes_image [C07,C16]: forallb(c, implies(accepted(c), isCode(MakeEncodingArray()[c]) && isCode(MakeEncodingArrayHardGaps()[c])))
+//@ # symmetry of the per-column tests (so snp and raw are symmetric in their arguments)
+//@ lemma col_symmetric [C07]: forallb(a, forallb(b, ((a & b) < 16) == ((b & a) < 16) && (((a & 8) == 8 && a == b) == ((b & 8) == 8 && b == a))))
